@@ -196,6 +196,32 @@ def mag_of(value, qm):
     return e
 
 
+def leaf_class(kind):
+    """constructor for the leaves of an expression program: Scalar, or a one-element Array over the given container kind"""
+    from barril.units import Array, Scalar
+
+    if not kind:
+        return Scalar
+    import numpy
+    from symx.shims import SymArray
+
+    def mk(x, unit, cat):
+        if kind == "list":
+            return Array([x], unit, cat)
+        if kind == "tuple":
+            return Array((x,), unit, cat)
+        return Array(SymArray([x]) if core.is_sym(x) else numpy.array([x], dtype=float), unit, cat)
+
+    return mk
+
+
+def first_value(o):
+    v = o.GetAbstractValue()
+    import numpy
+
+    return v[0] if isinstance(v, (list, tuple, numpy.ndarray)) else v
+
+
 def mag(obj):
     return mag_of(obj.GetAbstractValue(), qmap(obj))
 
